@@ -203,6 +203,11 @@ def history_case(draw):
     for i in range(draw(st.integers(2, 3))):
         ders.append({"ul": draw(st.integers(0, 1)), "type": draw(st.sampled_from(OPTIONS)), "steps": draw(st.integers(2, 6)),
                      "strike": draw(st.sampled_from([1.0, 0.95, 1.05]))})
+    if draw(st.booleans()):
+        # two contracts that look alike to anything keyed by shape / dtype: same number of steps, different underliers and step sizes
+        ders[1]["steps"], ders[1]["ul"], ders[0]["ul"] = ders[0]["steps"], 1, 0
+        if uls[0]["dt"] == uls[1]["dt"]:
+            uls[1]["dt"] = 1 / 52 if uls[0]["dt"] != 1 / 52 else 1 / 250
     di = st.integers(0, len(ders) - 1)
     npath = st.integers(1, 6)
     op_s = st.one_of(
